@@ -70,6 +70,7 @@ def run_task(t):
                     if st_ == 'sat': bad = ('pair (%d,%d) stored with a vector/distance that is not its shortest connection' % (i, j), mdl); break
                     if st_ == 'unknown': bad = ('unknown', None); break
         out.append((k, bad))
+        if bad and bad[0] != 'unknown': break          # one replayable failure is enough for this exploration
     return {'task': t, 'results': out, 'npaths': len(res), 'instructions': st['instructions'], 'time_s': round(time.time() - t0, 1), 'models': sorted(st['models_used'])}
 
 def _check(cons):
@@ -247,6 +248,7 @@ def triple_task(t):
             if st_ == 'sat': bad = ('triple (centre %d; %d,%d) %s although %s' % (ce, j, k2, 'delivered' if present else 'missing', 'a centre distance is not below the cutoff' if present else 'both centre distances are below the cutoff'), mdl)
             elif st_ == 'unknown': bad = ('unknown', None)
         out.append((k, bad))
+        if bad and bad[0] != 'unknown': break
     r = {'task': t, 'results': out, 'npaths': len(res), 'instructions': st['instructions'], 'models': sorted(st['models_used'])}
     if st.get('truncated') and not any(b and b[0] != 'unknown' for k, b in out): r['error'] = 'exploration truncated (%s) and no failure on the explored paths' % st['truncated']
     return r
